@@ -425,6 +425,8 @@ static void look_for_objects_to_swap () {
           && !(ob->flags & O_RESET_STATE))
         {
           reset_object (ob);
+          if (ob->flags & O_DESTRUCTED)
+            continue;		/* destructed itself in reset(): no clean_up() in it */
         }
 #endif
 
